@@ -33,7 +33,7 @@ TECHNIQUE = ("runtime monitoring: control-wire recorder + FakeTor config store +
 LEVEL_TEXT = ("Held on the executions observed: every cell of an enumerated table (existing SocksPort "
               "configuration x requested port(s) x public entry point, incl. two-call histories; ~16 000 cells "
               "quick, ~580 000 thorough) and every connect-outcome sequence of length 2 (quick) / 3 (thorough) "
-              "over 21 outcome kinds (incl. SOCKS-level failures after a successful TCP connect) for the 9050/9150 fallback. Enumeration of the listed forms, not a proof "
+              "over 27 outcome kinds (incl. SOCKS-level failures and slow answers under virtual time after a successful TCP connect) for the 9050/9150 fallback. Enumeration of the listed forms, not a proof "
               "for other SocksPort spellings; at most one clause is reported per call (root-cause order).")
 LEVEL_NOTE = ("Trusted: FakeTor GETCONF/SETCONF semantics for the SocksPort family (vf.faketor.sockstor), "
               "vf.refs.kvline, the reference SocksPort-line reader in sockstor.parse_first, Twisted's "
@@ -73,6 +73,13 @@ ASSUMPTIONS = [
     "that fails after a refusal is fine, an endpoint for a refused port is not",
     "a request for the same TCP port number on another (non-wildcard) address than an existing entry names a different "
     "listener (absent); with a wildcard (0.0.0.0/::) entry on that port it is counted as ambiguous",
+    "fallback under virtual time: Tor may answer the SOCKS dialogue slowly (29 s .. 1 h of reactor time before the method "
+    "reply or the final reply); slowness is not a connection error: no further port, and no ConnectError reported when "
+    "the late answer is a success (a late success that is not delivered for another reason is counted, not judged); an "
+    "attempt the client abandons itself (stopConnecting) gets no further outcome from the reactor",
+    "refusal window: while a create_socks_endpoint() SETCONF is unanswered another controller changes SocksPort "
+    "(FakeTor store + CONF_CHANGED to us), then Tor refuses our SETCONF; the following calls are judged against what "
+    "FakeTor has then. The refused window call itself is not judged",
     "an API Deferred still pending at quiescence is counted (unresolved), not judged",
 ]
 TRUSTED_BASE = ["vf.faketor.core.FakeTor + vf.faketor.sockstor.SocksStore (SocksPort family, 513 on malformed lines)",
@@ -92,8 +99,8 @@ FLOORS = {
     "quick": {"evaluations": 1000, "use_existing_checked": 300, "add_checked": 200, "setconf_decoded": 150,
               "endpoint_targets_compared": 500, "fallback_sequences_judged": 35,
               "fallback_attempts_checked": 60, "fallback_outcomes_compared": 30,
-              "fallback_socks_failures_compared": 80, "reach:txtorcon.controller:Tor._default_socks_endpoint": 400,
-              "overlap_histories_judged": 200, "overlap_setconfs_judged": 250, "refused_setconfs_seen": 150,
+              "fallback_socks_failures_compared": 80, "fallback_slow_successes_judged": 40, "reach:txtorcon.controller:Tor._default_socks_endpoint": 400,
+              "overlap_histories_judged": 200, "overlap_setconfs_judged": 250, "refused_setconfs_seen": 150, "window_histories_steps_judged": 120,
               "reach:txtorcon.endpoints:_create_socks_endpoint": 400,
               "reach:txtorcon.endpoints:TorClientEndpoint.connect": 90,
               "reach:txtorcon.torconfig:TorConfig.create_socks_endpoint": 150,
@@ -274,6 +281,52 @@ def _run_prelude(pre, cfg, aud, link, reactor):
     return "save-in-flight"
 
 
+OTHER_X, OTHER_Y = "9777 IsolateDestAddr", "unix:/run/tor/other.sock"
+
+
+def _run_window(win, cfg, tor, aud, link, reactor):
+    """create_socks_endpoint(<absent>) whose SETCONF is still unanswered -> another controller changes
+    SocksPort (FakeTor's store changes, CONF_CHANGED is delivered to us) -> Tor refuses our SETCONF (5xx,
+    nothing applied).  The calls that follow are the steps of the case."""
+    held = []
+
+    def hold(rest):
+        held.append(rest)
+        return None
+    tor.handlers["SETCONF"] = hold
+    res = _call(cfg.create_socks_endpoint, reactor, win["req"])
+    o = aud.watch(res[1], "window-call") if res[0] == "returned" else None
+    _settle(link, reactor)
+    if not held:
+        del tor.handlers["SETCONF"]
+        return "no-setconf-in-flight"
+    had = tor.conf.get("SocksPort")
+    if win["change"] == "add":
+        now = had + [OTHER_X]
+    elif win["change"] == "replace":
+        now = [OTHER_X, OTHER_Y]
+    elif win["change"] == "remove-first":
+        now = had[1:] or [OTHER_Y]
+    else:
+        now = had + [OTHER_Y, OTHER_X]
+    tor.conf.values["SocksPort"] = list(now)
+    tor.conf.values["__SocksPort"] = []
+    if "CONF_CHANGED" in tor.subscribed:
+        tor.outbox += R.encode(650, [("mid", "CONF_CHANGED")] + [("mid", "SocksPort=" + v) for v in now] +
+                               [("end", "OK")])
+    _settle(link, reactor)
+    rest = held.pop(0)
+    code = win.get("code", 553)
+    parts = [("end", REJECT_TEXT[code])]
+    tor.replies.append(("SETCONF " + rest, code, parts))
+    tor.outbox += R.encode(code, parts)
+    del tor.handlers["SETCONF"]
+    _settle(link, reactor)
+    if o is not None and o.fired and o.ok:
+        return "window-call-succeeded-though-refused"
+    return "refused"
+
+
 def run_steps(case):
     """execute one case; -> list of per-step observations"""
     import txtorcon
@@ -318,6 +371,9 @@ def run_steps(case):
             if torobj is None:
                 torobj = tctl.Tor(reactor, proto, _tor_config=cfg)
             prelude_note = _run_prelude(case.get("prelude") or {}, cfg, aud, link, reactor)
+    window_note = None
+    if case.get("window") and cfg is not None and not api.startswith("torcfg_"):
+        window_note = _run_window(case["window"], cfg, tor, aud, link, reactor)
     obs = []
     for req in case["steps"]:
         step = {"req": req, "E": tor.conf.socks_entries(), "others": tor.conf.snapshot_others(),
@@ -412,6 +468,7 @@ def run_steps(case):
         step["lines"] = [l for l in written.split("\r\n") if l]
         step["replies"] = [(l, c) for (l, c, _p) in tor.replies[nrep0:] if l in step["lines"]]
         step["prelude_note"] = prelude_note
+        step["window_note"] = window_note
         step["E_after"] = tor.conf.socks_entries()
         step["others_after"] = tor.conf.snapshot_others()
         step["listened"] = [(p.number, p.interface, p.open) for p in reactor.listening[l0:]]
@@ -451,6 +508,9 @@ def judge_step(case, step, nstep, rec, V):
         return False
     okind = outcome[0] if outcome[0] not in ("failed", "raised") else outcome[0] + ":" + outcome[1]
     rec.seen("outcome_kinds", "%s:%s" % (api, okind))
+    if step.get("window_note"):
+        rec.count("window_histories_steps_judged")
+        rec.seen("window_notes", step["window_note"])
 
     writes = []
     for l in step["lines"]:
@@ -477,6 +537,9 @@ def judge_step(case, step, nstep, rec, V):
         if fam == "torobj":
             k = (case.get("prelude") or {}).get("kind", "none")
             return None if k == "none" else "config-view-diverged:" + k
+        if fam == "torconfig" and case.get("window"):
+            # an earlier create_socks_endpoint() was refused after a CONF_CHANGED had arrived while it was in flight
+            return "after-refusal-with-conf-changed-in-flight"
         if fam == "torconfig" and case.get("reject") and nstep > 0:
             # an earlier create_socks_endpoint() of this history was refused by Tor
             return "after-refused-setconf"
@@ -1081,6 +1144,25 @@ def refusal_cells(cfg, tier, idx, base, free):
     return out
 
 
+def window_cells(cfg, tier, idx, base, free):
+    """refused add with a CONF_CHANGED (other controller) in the in-flight window, then further calls"""
+    if cfg["under"]:
+        return []
+    follow = [("cfg_create", ["9998"]), ("cfg_create", ["9777"]), ("cfg_sync", ["9777"]), ("cfg_create", [None]),
+              ("cfg_sync", [None]), ("cfg_create", ["9998", "9777"]), ("cfg_create", ["unix:/run/tor/other.sock"]),
+              ("cfg_create", ["9999"])]
+    changes = ["add", "replace", "remove-first", "add2"]
+    codes = (513, 552, 553)
+    combos = [(ch, f) for ch in changes for f in follow]
+    if tier == "quick" or idx % 2:
+        combos = [combos[(idx * 3 + k * 11) % len(combos)] for k in range(4)]
+    out = []
+    for n, (ch, (api, steps)) in enumerate(combos):
+        out.append(dict(base, api=api, steps=steps, free=free, conf_changed=True,
+                        window={"req": "9999", "change": ch, "code": codes[(idx + n) % 3]}))
+    return out
+
+
 def cells_for(cfg, tier, idx, cidx=None):
     """all cases (dicts) for one configuration"""
     out = []
@@ -1106,6 +1188,7 @@ def cells_for(cfg, tier, idx, cidx=None):
                             cfg_via="get_config" if (idx + j) % 2 else "ctor",
                             prelude={"kind": kind, "edit": edit, "value": value}))
     out.extend(refusal_cells(cfg, tier, idx if cidx is None else cidx, base, free))
+    out.extend(window_cells(cfg, tier, idx if cidx is None else cidx, base, free))
     # (selection by the configuration's own index, not the seed-shifted one: same shapes for every seed)
     out.extend(overlap_cells(cfg, tier, idx if cidx is None else cidx, base, free))
     # histories of two calls
@@ -1128,24 +1211,58 @@ def cells_for(cfg, tier, idx, cidx=None):
 # (RFC 1928 REP 1..8, what Tor answers), or Tor closing the connection before / after the
 # method-selection reply.  These are SOCKS-level failures, not connection errors.
 SOCKS_FAILURES = ["socks-reply-%d" % c for c in range(1, 9)] + ["socks-drop-before-method", "socks-drop-after-method"]
-OUTCOME_KINDS = ["success"] + sorted(sockstor.CONNECT_ERRORS) + sorted(sockstor.OTHER_FAILURES) + SOCKS_FAILURES
+# the same dialogue, but Tor is SLOW: the reactor clock is advanced by T seconds before the method reply
+# ("method") or before the final reply ("request": a slow circuit / onion rendezvous), then the request
+# succeeds ("ok") or is answered with error reply 4 ("r4").  Slowness is not a connection error.
+SLOW_KINDS = ["slow-request-ok-29", "slow-request-ok-31", "slow-request-ok-120", "slow-request-ok-3600",
+              "slow-method-ok-45", "slow-request-r4-90"]
+OUTCOME_KINDS = ["success"] + sorted(sockstor.CONNECT_ERRORS) + sorted(sockstor.OTHER_FAILURES) + SOCKS_FAILURES + \
+    SLOW_KINDS
+
+
+def socks_reply_code(k):
+    if k.startswith("socks-reply-"):
+        return int(k.rsplit("-", 1)[1])
+    if k.startswith("slow-") and k.split("-")[2].startswith("r"):
+        return int(k.split("-")[2][1:])
+    return None
 
 
 def kind_class(k):
     if k == "success":
         return "S"
+    if k.startswith("slow-"):
+        return "SS" if k.split("-")[2] == "ok" else "SX"
     if k in SOCKS_FAILURES:
         return "SX"
     return "CE" if k in sockstor.CONNECT_ERRORS else "X"
 
 
-def play_socks(kind, proto, tr, rec):
+def play_socks(kind, proto, tr, rec, reactor=None):
     """the SOCKS server side of one connection that was established"""
     from twisted.internet import error as terr
     from twisted.python import failure as tfail
     try:
         if not tr.value():
             rec.count("socks_client_wrote_nothing")
+        if kind.startswith("slow-"):
+            _s, where, final, secs = kind.split("-")
+
+            def wait():
+                for _ in range(3):
+                    reactor.advance(int(secs) / 3.0)
+                rec.count("virtual_seconds_waited", int(secs))
+            if where == "method":
+                wait()
+            proto.dataReceived(b"\x05\x00")
+            if where == "request":
+                wait()
+            if final == "ok":
+                proto.dataReceived(b"\x05\x00\x00\x01\x00\x00\x00\x00\x00\x00")
+            else:
+                proto.dataReceived(bytes([5, int(final[1:]), 0, 1, 0, 0, 0, 0, 0, 0]))
+                proto.connectionLost(tfail.Failure(terr.ConnectionDone()))
+            return
         if kind == "socks-drop-before-method":
             proto.connectionLost(tfail.Failure(terr.ConnectionDone()))
             return
@@ -1205,13 +1322,19 @@ def run_case_B(case, rec):
     given = []            # (attempt, kind, exception|None)
     k = 0
     while reactor.open and k < 8:
+        if reactor.open[0].stopped:
+            # the client gave this attempt up itself (stopConnecting): a reactor reports nothing further for it
+            reactor.open.pop(0)
+            given.append((reactor.attempts[len(given)], "abandoned-by-client", None))
+            rec.count("attempts_abandoned_by_client")
+            continue
         kind = seq[k] if k < len(seq) else "refused"
         att = reactor.attempts[len(given)]
-        if kind == "success" or kind in SOCKS_FAILURES:
+        if kind == "success" or kind in SOCKS_FAILURES or kind in SLOW_KINDS:
             proto, tr = reactor.succeed()
             given.append((att, kind, None))
             if proto is not None:
-                play_socks(kind, proto, tr, rec)
+                play_socks(kind, proto, tr, rec, reactor)
         else:
             exc = make_exc(kind, "attempt-%d" % (k + 1))
             given.append((att, kind, exc))
@@ -1241,6 +1364,7 @@ def run_case_B(case, rec):
         last = cls_seq[len(due) - 1]
         clause = {"S": "attempt-after-success", "X": "advanced-after-non-connection-error",
                   "SX": "advanced-after-socks-level-failure",
+                  "SS": "advanced-while-socks-request-pending",
                   "CE": "attempt-beyond-well-known-ports"}[last]
         V(clause, icls, {"attempts": attempts, "outcomes": seq[:len(attempts)]})
     elif len(ports) < len(due):
@@ -1252,7 +1376,15 @@ def run_case_B(case, rec):
             rec.count("fallback_success_outcomes")
             if o.fired and not o.ok:
                 rec.count("fallback_success_but_failed_unjudged")
-        elif final_kind in SOCKS_FAILURES:
+        elif kind_class(final_kind) == "SS":
+            # merely slow, then successful: no connection error occurred, so none may be reported
+            rec.count("fallback_slow_successes_judged")
+            from twisted.internet import error as terr
+            if o.fired and not o.ok and isinstance(o.value, terr.ConnectError):
+                V("connection-error-reported-without-one", icls, {"got": repr(o.value), "outcomes": seq[:len(due)]})
+            elif not (o.fired and o.ok):
+                rec.count("fallback_slow_success_not_delivered_unjudged")
+        elif kind_class(final_kind) == "SX":
             # the TCP connection was made: the outcome is that SOCKS failure, nothing else
             rec.count("fallback_socks_failures_compared")
             injected = [g[2] for g in given if g[2] is not None]
@@ -1262,7 +1394,7 @@ def run_case_B(case, rec):
                 V("socks-failure-but-success-reported", icls, {"value": repr(o.value), "outcomes": seq[:len(due)]})
             else:
                 from twisted.internet import error as terr
-                code = int(final_kind.rsplit("-", 1)[1]) if final_kind.startswith("socks-reply-") else None
+                code = socks_reply_code(final_kind)
                 got_code = getattr(o.value, "code", None)
                 if any(o.value is e for e in injected) or isinstance(o.value, terr.ConnectError) or \
                         (code is not None and got_code is not None and got_code != code):
